@@ -590,6 +590,8 @@ def run(ctx):
     ctx.guarded(r, XS86.check_lane_semantics, "grad_slice")
     r = ctx.rule("R6g", "aarch64 gradient compare / not / and / or select whole gradients by the value lane (symbolic masks)", 4)
     ctx.guarded(r, XS.check_mask_logic, "grad_slice")
+    r = ctx.rule("R6g2", "x86_64 gradient compare / not / and / or select whole gradients by the value lane: the mask built from lane 0 reaches all four lanes (symbolic masks; a select keyed on a derivative lane's sign bit is reported)", 3)
+    ctx.guarded(r, XS86.check_mask_logic, "grad_slice")
     r = ctx.rule("R6h", "aarch64 gradient abs / min / max return the selected operand whole, selected by the interpreter's comparison of the value lanes", 3)
     ctx.guarded(r, XS.check_grad_piecewise)
     from .. import x86pw as PW86
